@@ -82,7 +82,7 @@ def run(tier, work):
                     "line u1 do me xcall3:fe:fe:load_object:%s" % ("/inc/h%d" % i).encode().hex(), "cycle"]
         scen.append(("inc-%d" % b, ops)); meta.append("allow")
     t1 = time.time()
-    exs = vlib.run_vdrv(exe, conf, scen, work, tag="run", timeout=60)
+    exs = vlib.run_vdrv(exe, conf, scen, work, tag="run", timeout=60, jobs=1)     # one process: the batches share the scratch mudlib, so they run in a fixed order
     print("GEN %d paths x %d efuns x %d policies -> %d cases (+%d include/inherit files); RUN %d batches in %.1fs" %
           (len(paths), len(EFUNS), len(POLICIES), len(cases), 2 * len(incs), len(exs), time.time() - t1))
     ncrash = 0
